@@ -51,4 +51,178 @@ theorem FlagChange.facts {a' : Agent} {G : Grp} (hF : FlagChange W P s Q i a a' 
   rw [hF.hi] at hb; cases hb
   exact ⟨Loc.priv_of_head _ hF.live, Loc.sMem_of_head _ hF.live, hb2.symm⟩
 
+section
+variable {a' : Agent} {G : Grp}
+
+/-- shared preparation of the two lemmas -/
+theorem FlagChange.prep (hF : FlagChange W P s Q i a a' G) (hI : Inv W P pb cb s Q) {s' : St}
+    (hag : s'.agents = s.agents.set i a') :
+    (∀ j' G', (Q a.lk)[j']? = some G' → G'.head = some i → j' = 0 ∧ G' = G) ∧
+    (∀ ℓ nd, cnt s' ℓ nd = cnt s ℓ nd) ∧ Mono s s' (Q a.lk) ∧ hmode s' G = a'.loc.headMode ∧
+    published s' G = true ∧ published s G = true := by
+  obtain ⟨hp, hsm, hn⟩ := hF.facts hI
+  have honly : ∀ j' G', (Q a.lk)[j']? = some G' → G'.head = some i → j' = 0 ∧ G' = G :=
+    fun j' G' h1 h2 => head_unique hI hF.hi hF.live h1 h2 hF.first hF.head
+  refine ⟨honly, ?_, ?_, hmode_eq hF.hi hag G hF.head, ?_, ?_⟩
+  · intro ℓ nd; exact cnt_keep hF.hi hag hF.lk hF.qn (by rw [hF.sm, hsm]) ℓ nd
+  · constructor
+    · intro G' _ h
+      by_cases hh : G'.head = some i
+      · rw [hmode_eq_of_head hh hF.hi] at h
+        have := hF.live; rw [h] at this; simp at this
+      · rw [hmode_ne hag G' hh]; exact h
+    · intro G' _ h
+      by_cases hh : G'.head = some i
+      · rw [linked_eq' hF.hi hag G' hh, hF.pub', hF.link']; rfl
+      · rw [linked_ne hag G' hh]; exact h
+  · rw [published_eq' hF.hi hag G hF.head, hF.pub']; rfl
+  · rw [published_old hF.hi G hF.head, hF.notPub]; rfl
+
+/-- the group is the tail: the flag lives in the lock word -/
+theorem flag_change_lock (hW : WordSpecs P.C pb cb W) (hI : Inv W P pb cb s Q) (hF : FlagChange W P s Q i a a' G)
+    (hlast : (Q a.lk).getLast? = some G) (nw : Word)
+    (hnw : nw = W G.node (a'.loc.headMode == some .X) (a'.loc.headMode == some .SIX) (cnt s a.lk G.node)) :
+    Inv W P pb cb (setAgent (wr s (.lock a.lk) nw) i a') Q := by
+  have hwf := hI.wf a (List.mem_of_getElem? hF.hi)
+  have hL := hI.locks a.lk hwf.2.1
+  obtain ⟨hp, hsm, hn⟩ := hF.facts hI
+  have hag : (setAgent (wr s (.lock a.lk) nw) i a').agents = s.agents.set i a' := by simp
+  obtain ⟨honly, hcnt, hmono, hhm, hpub', hpub⟩ := hF.prep hI hag
+  have hlen : (Q a.lk).length = 1 := by
+    have h1 := getLast?_idx hlast
+    have := (idx_unique hL.nodup h1 hF.first rfl).1
+    have := getElem?_lt' hF.first
+    omega
+  have hidx : ∀ j' G', (Q a.lk)[j']? = some G' → j' = 0 ∧ G' = G := by
+    intro j' G' h
+    have := getElem?_lt' h
+    have hj0 : j' = 0 := by omega
+    subst hj0; rw [hF.first] at h; exact ⟨rfl, (Option.some.inj h).symm⟩
+  apply inv_same_q hI hF.hi (.lock a.lk) nw a' (Or.inl rfl) hF.lk hF.tid hp hF.priv' hF.idle' hF.notS
+  apply lockInv_same hL hF.hi hag hmono
+  · intro j Pg G' hj hj1 _
+    have := getElem?_lt' hj1; omega
+  · rw [lockW_setAgent, lockW_wr_lock s a.lk a.lk nw hwf.2.1]
+    simp only [↓reduceIte]
+    unfold expLock; rw [hlast]; dsimp only; unfold grpW
+    rw [hhm, hcnt, hnw]
+  · intro j' G' hj'
+    obtain ⟨rfl, rfl⟩ := hidx j' G' hj'
+    rw [nodeW_setAgent, nodeW_wr_lock, hL.nodeWord 0 G' hj']
+    unfold expNode
+    rw [hpub, hpub']
+    have hl : linkOf (setAgent (wr s (.lock a.lk) nw) i a') (Q a.lk) 0 = linkOf s (Q a.lk) 0 := by
+      apply linkOf_eq_of
+      intro Gs hGs; have := getElem?_lt' hGs; omega
+    simp [hl]
+  · intro G' hG'
+    obtain ⟨j', hj'⟩ := List.mem_iff_getElem?.mp hG'
+    obtain ⟨rfl, rfl⟩ := hidx j' G' hj'
+    rw [hhm, hcnt]
+    cases hm : a'.loc.headMode with
+    | some m => left; rfl
+    | none => right; exact (hF.done hm).2
+  · intro j' G' hj' h0; have := (hidx j' G' hj').1; omega
+  · intro hlive j' G' hj' _
+    obtain ⟨rfl, rfl⟩ := hidx j' G' hj'
+    exact ⟨hF.lk, by rw [hF.qn, hn], hF.headOK hlive _⟩
+  · intro G' _ _
+    refine ⟨hF.lk, ?_⟩
+    cases hm : a'.loc.headMode with
+    | some m => left; rfl
+    | none => right; exact (hF.done hm).1
+  · intro _ _; exact ⟨G, mem_of_idx hF.first, hF.head⟩
+  · intro _ h; rw [hF.sm] at h; cases h
+
+/-- the group has a linked successor: the flag lives in the successor's node word -/
+theorem flag_change_node (hW : WordSpecs P.C pb cb W) (hI : Inv W P pb cb s Q) (hF : FlagChange W P s Q i a a' G)
+    {G1 : Grp} (h1 : (Q a.lk)[1]? = some G1) (hl1 : linked s G1 = true) (nw : Word)
+    (hnw : nw = W (linkOf s (Q a.lk) 1) (a'.loc.headMode == some .X) (a'.loc.headMode == some .SIX)
+      (cnt s a.lk G.node)) :
+    Inv W P pb cb (setAgent (wr s (.node G1.node) nw) i a') Q := by
+  have hwf := hI.wf a (List.mem_of_getElem? hF.hi)
+  have hL := hI.locks a.lk hwf.2.1
+  obtain ⟨hp, hsm, hn⟩ := hF.facts hI
+  have hag : (setAgent (wr s (.node G1.node) nw) i a').agents = s.agents.set i a' := by simp [wr_node_agents]
+  obtain ⟨honly, hcnt, hmono, hhm, hpub', hpub⟩ := hF.prep hI hag
+  have hG1m := mem_of_idx h1
+  have hG1live := hI.grpLive a.lk G1 hG1m
+  -- groups other than the first keep their head data
+  have hnh : ∀ j' G', (Q a.lk)[j']? = some G' → 0 < j' → G'.head ≠ some i := by
+    intro j' G' hj' hpos hh; have := (honly j' G' hj' hh).1; omega
+  have hgwne : ∀ j' Pg p, (Q a.lk)[j']? = some Pg → 0 < j' →
+      grpW W (setAgent (wr s (.node G1.node) nw) i a') a.lk Pg p = grpW W s a.lk Pg p := by
+    intro j' Pg p hj' hpos
+    unfold grpW; rw [hmode_ne hag Pg (hnh j' Pg hj' hpos), hcnt]
+  apply inv_same_q hI hF.hi (.node G1.node) nw a' (Or.inr ⟨G1, hG1m, rfl⟩) hF.lk hF.tid hp hF.priv' hF.idle' hF.notS
+  apply lockInv_same hL hF.hi hag hmono
+  · intro j Pg Gs hj hjs hls
+    rcases Nat.eq_zero_or_pos j with h0 | hpos
+    · subst h0
+      rw [h1] at hjs; cases hjs
+      rw [hl1] at hls; cases hls
+    · exact hgwne j Pg Pg.node hj hpos
+  · rw [lockW_setAgent, lockW_wr_node, hL.lockWord]
+    unfold expLock
+    cases hk : (Q a.lk).getLast? with
+    | none => rfl
+    | some Gk =>
+      have hk' := getLast?_idx hk
+      have : 0 < (Q a.lk).length - 1 := by have := getElem?_lt' h1; omega
+      exact (hgwne _ Gk Gk.node hk' this).symm
+  · intro j' G' hj'
+    rw [nodeW_setAgent, nodeW_wr_node s G1.node G'.node nw hG1live (hI.node_pos (mem_of_idx hj'))]
+    by_cases hnode : G'.node = G1.node
+    · obtain ⟨rfl, rfl⟩ := idx_unique hL.nodup hj' h1 hnode
+      simp only [↓reduceIte]
+      unfold expNode
+      have hp1 : published (setAgent (wr s (.node G'.node) nw) i a') G' = true := by
+        rw [published_ne hag G' (hnh 1 G' hj' (by omega))]; exact linked_published G' hl1
+      have hlk : linkOf (setAgent (wr s (.node G'.node) nw) i a') (Q a.lk) 1 = linkOf s (Q a.lk) 1 := by
+        apply linkOf_eq_of
+        intro Gs hGs; exact linked_ne hag Gs (hnh 2 Gs hGs (by omega))
+      rw [hp1, hlk]
+      simp only [↓reduceIte, Nat.succ_ne_zero, Nat.sub_self, hF.first, Nat.add_one_sub_one, Nat.one_ne_zero]
+      unfold grpW
+      rw [hhm, hcnt, hnw]
+    · simp only [hnode, ↓reduceIte]
+      rw [hL.nodeWord j' G' hj']
+      symm
+      apply expNode_congr
+      · by_cases hh : G'.head = some i
+        · obtain ⟨_, rfl⟩ := honly j' G' hj' hh
+          rw [hpub, hpub']
+        · exact published_ne hag G' hh
+      · apply linkOf_eq_of
+        intro Gs hGs; exact linked_ne hag Gs (hnh (j' + 1) Gs hGs (by omega))
+      · intro Pg p hjpos hPg
+        rcases Nat.eq_zero_or_pos (j' - 1) with h0 | hpos
+        · exfalso
+          have hj1 : j' = 1 := by omega
+          subst hj1
+          rw [h1] at hj'; cases hj'
+          exact hnode rfl
+        · exact hgwne (j' - 1) Pg p hPg hpos
+  · intro G' hG'
+    by_cases hh : G'.head = some i
+    · obtain ⟨j', hj'⟩ := List.mem_iff_getElem?.mp hG'
+      obtain ⟨_, rfl⟩ := honly j' G' hj' hh
+      rw [hhm, hcnt]
+      cases hm : a'.loc.headMode with
+      | some m => left; rfl
+      | none => right; exact (hF.done hm).2
+    · rw [hmode_ne hag G' hh, hcnt]; exact hL.nonempty G' hG'
+  · intro j' G' hj' h0; rw [hmode_ne hag G' (hnh j' G' hj' h0)]; exact hL.laterHeads j' G' hj' h0
+  · intro hlive j' G' hj' hh
+    obtain ⟨rfl, rfl⟩ := honly j' G' hj' hh
+    exact ⟨hF.lk, by rw [hF.qn, hn], hF.headOK hlive _⟩
+  · intro G' _ _
+    refine ⟨hF.lk, ?_⟩
+    cases hm : a'.loc.headMode with
+    | some m => left; rfl
+    | none => right; exact (hF.done hm).1
+  · intro _ _; exact ⟨G, mem_of_idx hF.first, hF.head⟩
+  · intro _ h; rw [hF.sm] at h; cases h
+end
+
 end CppUtil.Mcs
